@@ -28,7 +28,7 @@ fn main() {
             parts.push(make_part("sched-pool", "SCHED", cli.cases(6_000, 300_000), || pool::pool_strategy(12), |_| (), |_, c| pool::run_pool_case(c)));
             parts.push(make_part("sched-server", "SCHED", cli.cases(2_500, 100_000), || server::server_strategy(9, false), |_| (), |_, c| server::run_server_case("C08", c)));
             (
-                "part sched-pool: TaskPool alone under the controlled scheduler: N=1..12 long-lived tasks (each announces itself, then blocks until all N have started), optional warm-up burst and idle phase (virtual time) before, generated arrival pattern and schedule tape; oracle: all N run at the same time (otherwise: exact deadlock report), each task body exactly once; non-trivial: N >= 5, distinct by case and executed decision trace; part sched-server: the whole Server over the in-memory listener: bursts of 1-9 keep-alive connections each sending 1-2 requests, 1-2 application threads answering, every client waits for its own responses while all the others stay open and closes only after all have theirs; oracle: completes (otherwise exact deadlock report), each connection gets exactly its own responses",
+                "part sched-pool: TaskPool alone under the controlled scheduler: N=1..12 long-lived tasks (each announces itself, then blocks until all N have started), optional warm-up burst and idle phase (virtual time) before, generated arrival pattern and schedule tape; oracle: all N run at the same time (otherwise: exact deadlock report), each task body exactly once; non-trivial: N >= 5, distinct by case and executed decision trace; part sched-server: the whole Server over the in-memory listener: bursts of 1-9 keep-alive connections each sending 1-2 requests, 1-2 application threads answering, every client waits for its own responses while all the others stay open and closes only after all have theirs, optionally 1-3 further connections stalled in the middle of a request head for the whole run; oracle: completes (otherwise exact deadlock report), each connection gets exactly its own responses",
                 sched_assumptions,
             )
         }
@@ -42,8 +42,9 @@ fn main() {
         "C07" => {
             parts.push(make_part("sched-queue", "SCHED", cli.cases(8_000, 500_000), queue::c07_queue_strategy, |_| (), |_, c| queue::run_queue_case("C07", c)));
             parts.push(make_part("sched-queue-hold", "SCHED", cli.cases(6_000, 300_000), queue::c07_hold_strategy, |_| (), |_, c| queue::run_queue_case("C07", c)));
+            parts.push(make_part("sched-server", "SCHED", cli.cases(1_500, 80_000), || server::server_strategy(6, false), |_| (), |_, c| server::run_server_case("C07", c)));
             (
-                "part sched-queue: MessagesQueue alone under the controlled scheduler: 1-3 pusher tasks (1-4 elements each, generated yields) x 1-3 receiver tasks with generated operation lists over recv / recv_timeout(0,5,50 ms virtual) / try_recv, schedule tape; oracle: received multiset = pushed (no loss, no duplicate), wire order for a single receiver, nothing left queued; lost wake-up = exact deadlock report while main waits for the count; part sched-queue-hold: 2-4 receivers that each take one request and stay busy with it (a long handler) while at most as many requests arrive in bursts: a request left queued while another receiver is still blocked deadlocks the scenario; non-trivial: pushers+receivers >= 3 and a receiver really parked on the queue's condition variable",
+                "part sched-queue: MessagesQueue alone under the controlled scheduler: 1-3 pusher tasks (1-4 elements each, generated yields) x 1-3 receiver tasks with generated operation lists over recv / recv_timeout(0,5,50 ms virtual) / try_recv, schedule tape; oracle: received multiset = pushed (no loss, no duplicate), wire order for a single receiver, nothing left queued; lost wake-up = exact deadlock report while main waits for the count; part sched-queue-hold: 2-4 receivers that each take one request and stay busy with it (a long handler) while at most as many requests arrive in bursts: a request left queued while another receiver is still blocked deadlocks the scenario; part sched-server: the whole Server over the in-memory listener with application threads receiving through recv / recv_timeout / try_recv / the incoming_requests iterator: every connection gets exactly its own responses (each request delivered to exactly one thread, answered once); non-trivial: pushers+receivers >= 3 and a receiver really parked on the queue's condition variable",
                 sched_assumptions,
             )
         }
